@@ -358,7 +358,7 @@ def certifyNode {W : Type} (t : Topo) (n : Nat) (s : Node W) : Bool :=
         match portEntry w.2.2 with
         | some e => denyAllCheck (s.acls (entryAcl e))
         | none => true)
-  | .frozen => s.ifaces.all (fun i => !i.enabled)
+  | .frozen => t.wires.all (fun w => w.2.1 != n || !t.side w.1.1 || !portEnabled s w.2.2)
 
 /-- every attacker-side node meets its role's condition -/
 def certify {W : Type} (t : Topo) (σ : Nat → Node W) : Bool :=
